@@ -1221,4 +1221,78 @@ theorem mem_map_sig_error {ι : Type} [DecidableEq ι] {gs : List (Option (Graph
     exact ⟨(sig_error hxe).1, g, hx, (sig_error hxe).2⟩
 
 
+
+/-! ### `_prf` as zero-safe ratios -/
+
+theorem prf_ratios {g t b : Rat} {s : Score} (h : prf g t b = .ok s) :
+    ((t = 0 ∨ g = 0 ∨ b = 0) → s = ⟨0, 0, 0⟩) ∧
+    (t ≠ 0 → g ≠ 0 → b ≠ 0 →
+      s.precision = b / t ∧ s.recall = b / g ∧
+      s.fscore = 2 * (s.precision * s.recall) / (s.precision + s.recall)) := by
+  unfold prf at h
+  by_cases hz : t = 0 ∨ g = 0 ∨ b = 0
+  · rw [if_pos hz] at h
+    cases h
+    exact ⟨fun _ => rfl, fun h1 h2 h3 => absurd hz (by simp [h1, h2, h3])⟩
+  · rw [if_neg hz] at h
+    refine ⟨fun h' => absurd h' hz, fun _ _ _ => ?_⟩
+    by_cases hs : b / t + b / g = 0
+    · simp [hs] at h
+    · simp only [hs, if_false] at h
+      cases h
+      exact ⟨rfl, rfl, rfl⟩
+
+/-! ### the DMRS constructor commutes with renamings that fix the top-link id 0 -/
+
+theorem mkDmrs_rename' {f : Nat → Nat} (hf : Function.Injective f) (h0 : f 0 = 0)
+    (top : Option Nat) (nodes : List (Node Nat)) (links : List (Link Nat)) :
+    (mkDmrs top nodes links).rename f
+      = mkDmrs (top.map f) (nodes.map (Node.rename f)) (links.map (Link.rename f)) := by
+  have hz : ∀ l : Link Nat, ((Link.rename f l).start = 0) ↔ (l.start = 0) := by
+    intro l
+    show f l.start = 0 ↔ l.start = 0
+    constructor
+    · intro h; apply hf; rw [h, h0]
+    · intro h; rw [h, h0]
+  have hT : Verif.Tables.c18TopNodeId = 0 := rfl
+  unfold mkDmrs Graph.rename
+  simp only [hT]
+  congr 1
+  · cases top with
+    | some t => rfl
+    | none =>
+      simp only [Option.map_none]
+      rw [List.find?_map]
+      have : ((fun l : Link Nat => decide (l.start = 0)) ∘ Link.rename f) = (fun l : Link Nat => decide (l.start = 0)) := by
+        funext l; simp only [Function.comp]; exact decide_eq_decide.2 (hz l)
+      rw [this, Option.map_map, Option.map_map]
+      rfl
+  · rw [List.filter_map]
+    have : ((fun l : Link Nat => decide (l.start ≠ 0)) ∘ Link.rename f) = (fun l : Link Nat => decide (l.start ≠ 0)) := by
+      funext l; simp only [Function.comp]; exact decide_eq_decide.2 (not_congr (hz l))
+    rw [this]
+
+/-! ### example structures (used by the `example`s of Props.lean) -/
+
+def exN1 : Node Nat :=
+  { id := 1, pred := ['_', 'a', '_', 'n'], lnk := .charspan 0 3, props := [(['N', 'U', 'M'], ['s', 'g'])],
+    carg := some ['K', 'i', 'm'], edges := [(['A', 'R', 'G', '1'], 2)] }
+def exN2 : Node Nat :=
+  { id := 2, pred := ['_', 'b', '_', 'v'], lnk := .charspan 4 7, props := [], carg := none, edges := [] }
+/-- gold: two nodes, one edge, one property, one constant, a top: 2+1+1+1+1 = 6 triples -/
+def exG : Graph Nat := { kind := .eds, top := some 1, nodes := [exN1, exN2], links := [] }
+/-- test: the same nodes in another order plus two more copies of the second one, other top: 8 triples, 5 shared -/
+def exT : Graph Nat :=
+  { kind := .eds, top := some 2, nodes := [exN2, exN1, { exN2 with id := 3 }, { exN2 with id := 4 }], links := [] }
+/-- `exG` with its nodes listed in the other order -/
+def exGr : Graph Nat := { kind := .eds, top := some 1, nodes := [exN2, exN1], links := [] }
+/-- a DMRS with a link that starts at no node -/
+def exD : Graph Nat :=
+  mkDmrs (some 10000) [{ exN1 with id := 10000, edges := [] }] [⟨77, 10000, ['A', 'R', 'G', '1']⟩]
+def exW : Weights := ⟨1, 1, 1, 1, 1⟩
+
+theorem exW_nonneg : exW.Nonneg := by
+  intro c; cases c <;> simp [exW, Weights.get] <;> decide
+
+
 end Verif.C18
